@@ -17,8 +17,10 @@ THEOREMS = ['C01_predictions_spec', 'C01_nullable_spec', 'C01_chart_is_language'
             'C01_fuel_suffices', 'C01_basic', 'C01_general', 'C01_example',
             'C01_dynamic_ends', 'C01_dynamic_trace', 'C01_dynamic_fuel', 'C01_dynamic_sound', 'C01_dynamic_complete',
             'C01_dynamic_strings', 'C01_dynamic_example', 'C01_distribute_language', 'C01_distribute_nodup',
-            'C01_distribute_example']
-GEN_DEPS = []
+            'C01_distribute_example',
+            'C01_basic_decisions_are_source', 'C01_dynamic_decisions_are_source', 'C01_analysis_decisions_are_source',
+            'C01_decisions_example']
+GEN_DEPS = ['EarleySteps']
 RULE = ('random CFGs (<=5 non-terminals, <=4 single-character terminals, <=3 alternatives of length <=3; nullable '
         'alternatives, left/right/middle recursion, unit cycles, ambiguity, useless rules; optionally EBNF operators) '
         'rendered as Lark text; the compiled BNF is read back from parser_conf.rules and given to the model. Inputs: all '
